@@ -2,9 +2,9 @@
    Only statements, `exact`, Print Assumptions. Specs: Model/C02Spec.v; models: Model/C02*.v; proofs: Proofs/C02*.v *)
 From Coq Require Import List Arith Bool ZArith Ring.
 From PV Require Import Base.Index Base.Perm Base.Sum Np.NpZ Np.Array Model.Sparse Model.Repr Gen.GenUtils
-                       Model.C02Spec Model.C02Dense Model.C02Sparse Model.C02Modes Model.C02Kruskal Model.C02SpKernels Model.C02Absorb
+                       Model.C02Spec Model.C02Dense Model.C02Sparse Model.C02Modes Model.C02Kruskal Model.C02SpKernels Model.C02Absorb Model.C02Tenmat Model.C02SpMore Model.C02KruskalMore Model.C02Tucker
                        Proofs.C02DenseProofs Proofs.C02SparseProofs Proofs.C02ModesProofs Proofs.C02MttkrpProofs
-                       Proofs.C02KruskalProofs Proofs.C02SpKernelsProofs Proofs.C02AbsorbProofs.
+                       Proofs.C02KruskalProofs Proofs.C02SpKernelsProofs Proofs.C02AbsorbProofs Proofs.C02TenmatProofs Proofs.C02PermProofs Proofs.C02IndicatorProofs Proofs.C02SpMoreProofs Proofs.C02KruskalMoreProofs Proofs.C02TuckerProofs Proofs.C02TuckerTtvProofs Proofs.C02TuckerMttkrpProofs.
 Import ListNotations.
 
 Section C02.
@@ -200,6 +200,198 @@ Theorem C02_repr_indep_innerprod : forall (S : sparse V) (X T : dense V),
   (forall i, den_sp v0 S i = den_dense v0 X i) ->
   impl_innerprod_sp_dense v0 vadd vmul S T = impl_innerprod_dense v0 vadd vmul X T.
 Proof. exact (repr_indep_innerprod V v0 v1 vadd vmul vsub vopp Vring isz). Qed.
+(* ---- wave 3: the matricisation route of tensor.py (to_tenmat / tenmat product / to_tensor) ---- *)
+(* dense ttt: contract modes sd of X with modes od of Y (outer product for sd = od = []; scalar result when nothing remains) *)
+Theorem C02_ttt_dense : forall (X Y : dense V) sd od,
+  pick 0 sd (dshape X) = pick 0 od (dshape Y) ->
+  let Z := impl_ttt_dense v0 vadd vmul X Y sd od in
+  dshape Z = ttt_shape (dshape X) (dshape Y) sd od /\ wf_dense Z /\
+  forall ij, inb (ttt_shape (dshape X) (dshape Y) sd od) ij = true ->
+    den_dense v0 Z ij = spec_ttt v0 vadd vmul (den_dense v0 X) (dshape X) (den_dense v0 Y) (dshape Y) sd od ij.
+Proof. exact (impl_ttt_dense_correct V v0 vadd vmul). Qed.
+
+(* dense collapse with an ARBITRARY reducer (fun applied to each slice, collapsed modes in F order); dims ascending as tt_dimscheck
+   returns them (only used when every mode is collapsed: the data is then reduced in its own F order) *)
+Theorem C02_collapse_dense : forall (red : list V -> V) (X : dense V) dims,
+  wf_dense X -> dims <> [] ->
+  (compl (length (dshape X)) dims = [] -> dims = seq 0 (length (dshape X))) ->
+  let Y := impl_collapse_dense v0 red X dims in
+  dshape Y = ttv_shape (dshape X) dims /\ wf_dense Y /\
+  forall i', inb (ttv_shape (dshape X) dims) i' = true ->
+    den_dense v0 Y i' = spec_collapse_red red (den_dense v0 X) (dshape X) dims i'.
+Proof. exact (impl_collapse_dense_correct V v0). Qed.
+
+(* the default reducer (sum): collapse is the sum over the collapsed modes; dims = [] (a copy) included *)
+Theorem C02_collapse_sum_dense : forall (X : dense V) dims,
+  wf_dense X ->
+  (compl (length (dshape X)) dims = [] -> dims = seq 0 (length (dshape X))) ->
+  let Y := impl_collapse_dense v0 (sumv v0 vadd) X dims in
+  dshape Y = ttv_shape (dshape X) dims /\ wf_dense Y /\
+  forall i', inb (ttv_shape (dshape X) dims) i' = true ->
+    den_dense v0 Y i' = spec_collapse v0 vadd (den_dense v0 X) (dshape X) dims i'.
+Proof. exact (impl_collapse_sum_correct V v0 v1 vadd vmul vsub vopp Vring). Qed.
+
+(* dense contract (trace over two equally sized modes; np.trace for a matrix) *)
+Theorem C02_contract_dense : forall (X : dense V) i1 i2,
+  wf_dense X -> i1 <> i2 -> i1 < length (dshape X) -> i2 < length (dshape X) ->
+  nth i1 (dshape X) 0 = nth i2 (dshape X) 0 ->
+  let Y := impl_contract_dense v0 vadd X i1 i2 in
+  dshape Y = ttv_shape (dshape X) [i1; i2] /\ wf_dense Y /\
+  forall i', inb (ttv_shape (dshape X) [i1; i2]) i' = true ->
+    den_dense v0 Y i' = spec_contract v0 vadd (den_dense v0 X) (dshape X) i1 i2 i'.
+Proof. exact (impl_contract_dense_correct V v0 vadd). Qed.
+
+(* dense scale along modes dims by a factor tensor of shape shape[dims] *)
+Theorem C02_scale_dense : forall (X F : dense V) dims,
+  wf_dense X -> is_perm (dims ++ compl (length (dshape X)) dims) (length (dshape X)) ->
+  dshape F = pick 0 dims (dshape X) ->
+  let Y := impl_scale_dense v0 vmul X dims F in
+  dshape Y = dshape X /\ wf_dense Y /\
+  forall i, inb (dshape X) i = true -> den_dense v0 Y i = spec_scale vmul (den_dense v0 X) dims (den_dense v0 F) i.
+Proof. exact (impl_scale_dense_correct V v0 vmul). Qed.
+
+(* dense mask: the values at the subscripts the mask's find() returns *)
+Theorem C02_mask_dense : forall (X : dense V) (wsubs : list idx),
+  Forall (fun i => inb (dshape X) i = true) wsubs ->
+  impl_mask_dense v0 X wsubs = spec_mask (den_dense v0 X) wsubs.
+Proof. exact (impl_mask_dense_correct V v0). Qed.
+
+(* ---- wave 3: the defining sums do not depend on the order in which the caller lists the (mode, multiplicand) pairs ---- *)
+Theorem C02_ttv_perm_invariant : forall (f : idx -> V) s dims vs dims' vs' i',
+  NoDup dims -> (forall x, In x dims -> x < length s) ->
+  length vs = length dims -> length vs' = length dims' ->
+  Permutation.Permutation (combine dims vs) (combine dims' vs') ->
+  length i' = length (compl (length s) dims) ->
+  spec_ttv v0 vadd vmul f s dims vs i' = spec_ttv v0 vadd vmul f s dims' vs' i'.
+Proof. exact (spec_ttv_perm_pairs V v0 v1 vadd vmul vsub vopp Vring). Qed.
+
+Theorem C02_ttm_list_perm_invariant : forall (nUs nUs' : list (nat * (nat * @matrix V))),
+  Permutation.Permutation nUs nUs' ->
+  forall (f : idx -> V) s tr, NoDup (map fst nUs) -> Forall (fun p => fst p < length s) nUs ->
+  ttm_list_shape s nUs = ttm_list_shape s nUs' /\
+  forall i, inb (ttm_list_shape s nUs) i = true ->
+    spec_ttm_list v0 vadd vmul f s nUs tr i = spec_ttm_list v0 vadd vmul f s nUs' tr i.
+Proof. exact (spec_ttm_list_perm V v0 v1 vadd vmul vsub vopp Vring). Qed.
+
+(* tensor.ttv / tensor.ttm as called, stated over the CALLER's own order of the designated modes (request resolved by the
+   generated tt_dimscheck); with one multiplicand per listed mode the attached list is the caller's list itself *)
+Theorem C02_ttv_dense_req_caller : forall (X : dense V) dims excl (vs : list (list V)),
+  wf_dense X -> admissible (Z.of_nat (length (dshape X))) dims excl (zlen vs) ->
+  let d := req_modes (Z.of_nat (length (dshape X))) dims excl in
+  let cd := nats d in
+  exists Y, impl_ttv_req v0 vadd vmul X dims excl vs = Ok Y /\
+    dshape Y = ttv_shape (dshape X) cd /\ wf_dense Y /\
+    forall i', inb (ttv_shape (dshape X) cd) i' = true ->
+      den_dense v0 Y i' = spec_ttv v0 vadd vmul (den_dense v0 X) (dshape X) cd (map (attach [] d vs) cd) i'.
+Proof. exact (impl_ttv_req_caller V v0 v1 vadd vmul vsub vopp Vring). Qed.
+
+Theorem C02_ttm_dense_req_caller : forall (X : dense V) dims excl (ms : list (nat * @matrix V)) tr,
+  wf_dense X -> admissible (Z.of_nat (length (dshape X))) dims excl (zlen ms) ->
+  let d := req_modes (Z.of_nat (length (dshape X))) dims excl in
+  let cd := nats d in
+  let nUs := combine cd (map (attach (@ttm_dflt V) d ms) cd) in
+  d <> [] ->
+  exists Y, impl_ttm_req v0 vadd vmul X dims excl ms tr = Ok Y /\
+    dshape Y = ttm_list_shape (dshape X) nUs /\ wf_dense Y /\
+    forall i, inb (ttm_list_shape (dshape X) nUs) i = true ->
+      den_dense v0 Y i = spec_ttm_list v0 vadd vmul (den_dense v0 X) (dshape X) nUs tr i.
+Proof. exact (impl_ttm_req_caller V v0 v1 vadd vmul vsub vopp Vring). Qed.
+
+Theorem C02_attach_own_order : forall (A : Type) (dflt : A) (d : vec) (ms : list A),
+  NoDup (nats d) -> length ms = length d -> map (attach dflt d ms) (nats d) = ms.
+Proof. exact (@attach_own_order). Qed.
+(* ---- wave 3: the defining sum of ttv as ONE sum over all subscripts with an indicator; sparse kernels over several modes ---- *)
+Theorem C02_ttv_indicator_sum : forall (f : idx -> V) s dims vs i',
+  NoDup dims -> (forall x, In x dims -> x < length s) -> length vs = length dims ->
+  inb (ttv_shape s dims) i' = true ->
+  spec_ttv v0 vadd vmul f s dims vs i' =
+  sum_over v0 vadd (allsubs s) (fun a => vmul (f a)
+     (if idx_eqb (pick 0 (compl (length s) dims) a) i' then pprod v0 v1 vmul (combine dims vs) a else v0)).
+Proof. exact (spec_ttv_indicator V v0 v1 vadd vmul vsub vopp Vring isz). Qed.
+
+(* sptensor.ttv over SEVERAL modes at once (gather every vector at the stored subscripts, scale, project, accumulate); with
+   C02_sparse_switch both containers of the 50% switch denote this array; no mode left: the scalar np.sum(newvals) (i' = []) *)
+Theorem C02_ttv_sparse : forall (S : sparse V) dims vs i', wf_sp isz S ->
+  NoDup dims -> (forall x, In x dims -> x < length (sshape S)) -> length vs = length dims ->
+  inb (ttv_shape (sshape S) dims) i' = true ->
+  impl_ttv_sp v0 v1 vadd vmul S dims vs i' = spec_ttv v0 vadd vmul (den_sp v0 S) (sshape S) dims vs i'.
+Proof. exact (impl_ttv_sp_correct V v0 v1 vadd vmul vsub vopp Vring isz). Qed.
+
+(* sptensor.ttm in one mode, plain and transposed *)
+Theorem C02_ttm_sparse : forall (S : sparse V) n U tr i, wf_sp isz S ->
+  n < length (sshape S) -> length i = length (sshape S) ->
+  inb (remove_at n (sshape S)) (remove_at n i) = true ->
+  impl_ttm_sp v0 vadd vmul S n U tr i = spec_ttm v0 vadd vmul (den_sp v0 S) (sshape S) n U tr i.
+Proof. exact (impl_ttm_sp_correct V v0 v1 vadd vmul vsub vopp Vring isz). Qed.
+
+Theorem C02_collapse_sparse : forall (S : sparse V) dims i', wf_sp isz S ->
+  NoDup dims -> (forall x, In x dims -> x < length (sshape S)) ->
+  inb (ttv_shape (sshape S) dims) i' = true ->
+  impl_collapse_sp v0 vadd S dims i' = spec_collapse v0 vadd (den_sp v0 S) (sshape S) dims i'.
+Proof. exact (impl_collapse_sp_correct V v0 v1 vadd vmul vsub vopp Vring isz). Qed.
+
+Theorem C02_contract_sparse : forall (S : sparse V) i1 i2 i', wf_sp isz S ->
+  i1 <> i2 -> i1 < length (sshape S) -> i2 < length (sshape S) ->
+  nth i1 (sshape S) 0 = nth i2 (sshape S) 0 ->
+  inb (ttv_shape (sshape S) [i1; i2]) i' = true ->
+  impl_contract_sp v0 vadd S i1 i2 i' = spec_contract v0 vadd (den_sp v0 S) (sshape S) i1 i2 i'.
+Proof. exact (impl_contract_sp_correct V v0 v1 vadd vmul vsub vopp Vring isz). Qed.
+
+(* sptensor.scale: stored values times the factor at the projected stored subscripts, annihilated entries dropped: the result is
+   well formed (no explicit zero) and denotes the scaled array; g = the array the factor (tensor, sptensor, ndarray) denotes *)
+Theorem C02_scale_sparse : (forall v, isz v = true <-> v = v0) ->
+  forall (S : sparse V) dims (g : idx -> V), wf_sp isz S ->
+  let R := impl_scale_sp vmul isz S dims g in
+  sshape R = sshape S /\ wf_sp isz R /\
+  forall i, den_sp v0 R i = spec_scale vmul (den_sp v0 S) dims g i.
+Proof. exact (impl_scale_sp_correct V v0 v1 vadd vmul vsub vopp Vring isz). Qed.
+
+Theorem C02_mask_sparse : forall (S : sparse V) (wsubs : list idx), wf_sp isz S ->
+  impl_mask_sp v0 S wsubs = spec_mask (den_sp v0 S) wsubs.
+Proof. exact (impl_mask_sp_correct V v0 isz). Qed.
+(* ---- wave 3: Kruskal ttv over several modes; Tucker ttm ---- *)
+(* ktensor.ttv over several modes: weights * Π (A_dim^T v_dim), remaining factors kept (no mode left: the 0-way Kruskal tensor,
+   whose denotation at [] is sum(new_weights)) *)
+Theorem C02_ttv_kruskal : forall (K : ktensor V) dims vs i',
+  NoDup dims -> (forall x, In x dims -> x < length (kfactors K)) -> length vs = length dims ->
+  inb (ttv_shape (kshape K) dims) i' = true ->
+  den_k v0 v1 vadd vmul (impl_ttv_k v0 v1 vadd vmul K dims vs) i' =
+  spec_ttv v0 vadd vmul (den_k v0 v1 vadd vmul K) (kshape K) dims vs i'.
+Proof. exact (impl_ttv_k_correct V v0 v1 vadd vmul vsub vopp Vring). Qed.
+
+(* ttensor.ttm: factor n replaced by M U_n (plain) / M^T U_n (transposed), core kept; one mode and list form *)
+Theorem C02_ttm_tucker1 : forall (T : ttensor V) n M J tr i,
+  n < length (tfactors T) -> n < length (dshape (tcore T)) ->
+  inb (upd (tshape T) n J) i = true ->
+  den_t v0 v1 vadd vmul (impl_ttm_t1 v0 vadd vmul T n M J tr) i =
+  spec_ttm v0 vadd vmul (den_t v0 v1 vadd vmul T) (tshape T) n M tr i.
+Proof. exact (impl_ttm_t1_correct V v0 v1 vadd vmul vsub vopp Vring). Qed.
+
+Theorem C02_ttm_tucker : forall nUs (T : ttensor V) tr,
+  Forall (fun p => fst p < length (tfactors T)) nUs -> length (dshape (tcore T)) = length (tfactors T) ->
+  let Y := impl_ttm_t v0 vadd vmul T nUs tr in
+  tshape Y = ttm_list_shape (tshape T) nUs /\
+  forall i, inb (ttm_list_shape (tshape T) nUs) i = true ->
+    den_t v0 v1 vadd vmul Y i = spec_ttm_list v0 vadd vmul (den_t v0 v1 vadd vmul T) (tshape T) nUs tr i.
+Proof. exact (impl_ttm_t_correct V v0 v1 vadd vmul vsub vopp Vring). Qed.
+(* ttensor.ttv over any set of modes: W_dim = U_dim^T v, newcore = core.ttv(W, dims) (the proved tensor.ttv), remaining factors kept
+   (no mode left: the 0-way Tucker tensor, i.e. float(newcore)) *)
+Theorem C02_ttv_tucker : forall (T : ttensor V) dims vs i',
+  wf_dense (tcore T) -> length (dshape (tcore T)) = length (tfactors T) ->
+  NoDup dims -> (forall x, In x dims -> x < length (tfactors T)) -> length vs = length dims ->
+  inb (ttv_shape (tshape T) dims) i' = true ->
+  den_t v0 v1 vadd vmul (impl_ttv_t v0 vadd vmul T dims vs) i' =
+  spec_ttv v0 vadd vmul (den_t v0 v1 vadd vmul T) (tshape T) dims vs i'.
+Proof. exact (impl_ttv_t_correct V v0 v1 vadd vmul vsub vopp Vring). Qed.
+
+(* ttensor.mttkrp (factor list; a Kruskal operand goes through C02_mttkrp_kruskal_operand): W_i = U_i^T V_i, Y = core.mttkrp(W, n)
+   (the proved tensor.mttkrp, all three branches), U_n Y *)
+Theorem C02_mttkrp_tucker : forall (T : ttensor V) (Vs : list (@matrix V)) n R x r,
+  wf_dense (tcore T) -> 2 <= length (tfactors T) -> length (dshape (tcore T)) = length (tfactors T) ->
+  length Vs = length (tfactors T) -> n < length (tfactors T) -> x < nth n (tshape T) 0 -> r < R ->
+  impl_mttkrp_t v0 vadd vmul T Vs n R x r =
+  spec_mttkrp v0 v1 vadd vmul (den_t v0 v1 vadd vmul T) (tshape T) n (repeat v1 R) Vs x r.
+Proof. exact (impl_mttkrp_t_correct V v0 v1 vadd vmul vsub vopp Vring). Qed.
 End C02.
 
 Print Assumptions C02_ttv_dense.
@@ -228,6 +420,29 @@ Print Assumptions C02_innerprod_kk.
 Print Assumptions C02_normsq_k.
 Print Assumptions C02_mttkrp_k.
 Print Assumptions C02_repr_indep_mttkrp.
+Print Assumptions C02_ttt_dense.
+Print Assumptions C02_collapse_dense.
+Print Assumptions C02_collapse_sum_dense.
+Print Assumptions C02_contract_dense.
+Print Assumptions C02_scale_dense.
+Print Assumptions C02_mask_dense.
+Print Assumptions C02_ttv_perm_invariant.
+Print Assumptions C02_ttm_list_perm_invariant.
+Print Assumptions C02_ttv_dense_req_caller.
+Print Assumptions C02_ttm_dense_req_caller.
+Print Assumptions C02_attach_own_order.
+Print Assumptions C02_ttv_indicator_sum.
+Print Assumptions C02_ttv_sparse.
+Print Assumptions C02_ttm_sparse.
+Print Assumptions C02_collapse_sparse.
+Print Assumptions C02_contract_sparse.
+Print Assumptions C02_scale_sparse.
+Print Assumptions C02_mask_sparse.
+Print Assumptions C02_ttv_kruskal.
+Print Assumptions C02_ttm_tucker1.
+Print Assumptions C02_ttm_tucker.
+Print Assumptions C02_ttv_tucker.
+Print Assumptions C02_mttkrp_tucker.
 
 (* non-vacuity: concrete non-symmetric instances over Z *)
 Local Open Scope Z_scope.
@@ -275,4 +490,52 @@ Example C02_ex_mttkrp_sp : map (fun x => impl_mttkrp_sp 0 1 Z.add Z.mul (mkSp [2
 Proof. reflexivity. Qed.
 Example C02_ex_absorb : get_mttkrp_factors_k Z.mul [2; -1] [[[1; 1]; [0; 2]]; [[1; 2]; [3; 4]; [5; 6]]] 0
                         = [[[1; 1]; [0; 2]]; [[2; -2]; [6; -4]; [10; -6]]].
+Proof. reflexivity. Qed.
+(* wave 3 *)
+Example C02_ex_ttt : impl_ttt_dense 0 Z.add Z.mul (mkDense [2; 3]%nat [1; 2; 3; 4; 5; 6]) (mkDense [3; 2]%nat [1; 0; 2; 0; 1; -1]) [1%nat] [0%nat]
+                     = mkDense [2; 2]%nat [11; 14; -2; -2].
+Proof. reflexivity. Qed.
+Example C02_ex_ttt_scalar : impl_ttt_dense 0 Z.add Z.mul (mkDense [2; 3]%nat [1; 2; 3; 4; 5; 6]) (mkDense [3; 2]%nat [1; 0; 2; 0; 1; -1]) [0; 1]%nat [1; 0]%nat
+                     = mkDense [] [9].
+Proof. reflexivity. Qed.
+Example C02_ex_collapse : impl_collapse_dense 0 (sumv 0 Z.add) (mkDense [2; 3]%nat [1; 2; 3; 4; 5; 6]) [0%nat] = mkDense [3%nat] [3; 7; 11].
+Proof. reflexivity. Qed.
+Example C02_ex_collapse_max : impl_collapse_dense 0 (fold_right Z.max (-100)) (mkDense [2; 3]%nat [1; 2; 3; 4; 5; 6]) [1%nat] = mkDense [2%nat] [5; 6].
+Proof. reflexivity. Qed.
+Example C02_ex_contract : impl_contract_dense 0 Z.add (mkDense [2; 3; 2]%nat [1; 2; 3; 4; 5; 6; 7; 8; 9; 10; 11; 12]) 0 2 = mkDense [3%nat] [9; 13; 17].
+Proof. reflexivity. Qed.
+Example C02_ex_scale : impl_scale_dense 0 Z.mul (mkDense [2; 3]%nat [1; 2; 3; 4; 5; 6]) [1%nat] (mkDense [3%nat] [1; 0; -1]) = mkDense [2; 3]%nat [1; 2; 0; 0; -5; -6].
+Proof. reflexivity. Qed.
+Example C02_ex_mask : impl_mask_dense 0 (mkDense [2; 3]%nat [1; 2; 3; 4; 5; 6]) [[1; 2]; [0; 1]]%nat = [6; 3].
+Proof. reflexivity. Qed.
+(* the caller's order (2, 0, 1) and the sorted order give the same defining sum *)
+Example C02_ex_ttv_perm : spec_ttv 0 Z.add Z.mul (den_dense 0 (mkDense [2; 3; 2]%nat [1; 2; 3; 4; 5; 6; 7; 8; 9; 10; 11; 12])) [2; 3; 2]%nat
+                            [2; 0; 1]%nat [[1; -1]; [1; 2]; [0; 1; 0]] [] = -18.
+Proof. reflexivity. Qed.
+Example C02_ex_ttv_sp : map (impl_ttv_sp 0 1 Z.add Z.mul (mkSp [2; 3; 2]%nat [[1; 2; 0]; [0; 1; 1]; [1; 0; 1]]%nat [5; 7; 2]) [0; 2]%nat [[1; -1]; [2; 3]])
+                           [[0%nat]; [1%nat]; [2%nat]] = [-6; 21; -10].
+Proof. reflexivity. Qed.
+Example C02_ex_ttm_sp : map (impl_ttm_sp 0 Z.add Z.mul (mkSp [2; 3]%nat [[1; 2]; [0; 1]; [1; 0]]%nat [5; 7; 2]) 1 [[1; 0; 2]; [0; 1; 0]] false)
+                           [[0; 0]; [1; 0]; [0; 1]; [1; 1]]%nat = [0; 12; 7; 0].
+Proof. reflexivity. Qed.
+Example C02_ex_collapse_sp : map (impl_collapse_sp 0 Z.add (mkSp [2; 3]%nat [[1; 2]; [0; 1]; [1; 0]]%nat [5; 7; 2]) [1%nat]) [[0%nat]; [1%nat]] = [7; 7].
+Proof. reflexivity. Qed.
+Example C02_ex_contract_sp : map (impl_contract_sp 0 Z.add (mkSp [2; 3; 2]%nat [[1; 2; 1]; [0; 1; 0]; [1; 0; 0]]%nat [5; 7; 2]) 0 2) [[0%nat]; [1%nat]; [2%nat]] = [0; 7; 5].
+Proof. reflexivity. Qed.
+Example C02_ex_scale_sp : impl_scale_sp Z.mul (fun v => v =? 0) (mkSp [2; 3]%nat [[1; 2]; [0; 1]; [1; 0]]%nat [5; 7; 2]) [1%nat] (fun i => nth (nth 0 i 0%nat) [3; 0; -1] 0)
+                          = mkSp [2; 3]%nat [[1; 2]; [1; 0]]%nat [-5; 6].
+Proof. reflexivity. Qed.
+Example C02_ex_mask_sp : impl_mask_sp 0 (mkSp [2; 3]%nat [[1; 2]; [0; 1]; [1; 0]]%nat [5; 7; 2]) [[0; 1]; [0; 0]; [1; 2]]%nat = [7; 0; 5].
+Proof. reflexivity. Qed.
+Example C02_ex_ttv_kmulti : impl_ttv_k 0 1 Z.add Z.mul (mkK [2; 3] [[[1; 0]; [2; 1]]; [[1; 1]; [0; 2]; [3; 0]]; [[1; -1]; [2; 0]]]) [0; 2]%nat [[1; -1]; [2; 1]]
+                       = mkK [-8; 6] [[[1; 1]; [0; 2]; [3; 0]]].
+Proof. reflexivity. Qed.
+Example C02_ex_ttm_t : impl_ttm_t1 0 Z.add Z.mul (mkT (mkDense [1; 2]%nat [2; -1]) [[[1]; [2]]; [[1; 0]; [0; 1]; [1; 1]]]) 1 [[1; 0; 2]; [0; 1; 0]] 2 false
+                       = mkT (mkDense [1; 2]%nat [2; -1]) [[[1]; [2]]; [[3; 2]; [0; 1]]].
+Proof. reflexivity. Qed.
+Example C02_ex_ttv_t : impl_ttv_t 0 Z.add Z.mul (mkT (mkDense [1; 2]%nat [2; -1]) [[[1]; [2]]; [[1; 0]; [0; 1]; [1; 1]]]) [1%nat] [[1; 2; -1]]
+                       = mkT (mkDense [1%nat] [-1]) [[[1]; [2]]].
+Proof. reflexivity. Qed.
+Example C02_ex_mttkrp_t : map (fun x => impl_mttkrp_t 0 Z.add Z.mul (mkT (mkDense [1; 2]%nat [2; -1]) [[[1]; [2]]; [[1; 0]; [0; 1]; [1; 1]]])
+                                 [[[0]; [0]]; [[1]; [2]; [-1]]] 0 1 x 0) [0%nat; 1%nat] = [-1; -2].
 Proof. reflexivity. Qed.
